@@ -18,6 +18,11 @@ pub struct Plan {
     pub root_groups: Option<Vec<&'static str>>,
     /// depth of the trees below the feature-covering roots (None = not used)
     pub feature_depth: Option<u8>,
+    /// judge pairs of positions whose hashes agree in a truncation of the key, one right after the other
+    /// on one thread (state carried between calls inside the library)
+    pub call_order_pairs: bool,
+    /// use the larger source universe for those pairs (40-bit agreements) also in the quick tier
+    pub call_order_big: bool,
 }
 
 /// `scale` divides the budgets for oracles that are several times more expensive per state.
@@ -75,6 +80,8 @@ pub fn standard_plan(tier: Tier, scale: u64) -> Plan {
         dfs: tier == Tier::Thorough,
         families,
         closures: vec![],
+        call_order_pairs: false,
+        call_order_big: false,
         root_groups: None,
         feature_depth: Some(match tier {
             Tier::Quick => {
@@ -120,6 +127,7 @@ pub fn with_line_geometry(plan: Plan, pairs: bool, depth_single: u8) -> Plan {
 /// `mover_only`: of the two-ray members keep those in which the side with the pinned men is to move
 /// (for oracles that are expensive per state and judge the mover's moves).
 pub fn with_line_geometry_for(mut plan: Plan, pairs: bool, depth_single: u8, mover_only: bool) -> Plan {
+    plan.call_order_pairs = true;
     plan.families.push((Box::new(line_family(false, true)), depth_single));
     if pairs {
         let mut f = line_family(true, false);
@@ -241,4 +249,34 @@ pub fn run_plan<O: PosOracle>(run: &Arc<Run>, oracle: &Arc<O>, plan: &Plan) {
         clo_notes.push(json!({"closure": name, "seed_states": seeds.len(), "unique_states_at_fixpoint": st.unique, "arrivals": st.generated, "max_depth": st.max_depth, "seconds": run.elapsed() - t0}));
     }
     run.note("closures", json!(clo_notes));
+    // ---- call order
+    if plan.call_order_pairs && !run.has_violation() {
+        use rayon::prelude::*;
+        let pairs = hash_collision_pairs_from(if run.tier == Tier::Quick { 300 } else { 3000 }, true);
+        pairs.par_iter().for_each(|(p1, p2, kind)| {
+            if run.has_violation() {
+                return;
+            }
+            if let (Ok(s1), Ok(s2)) = (St::root(p1), St::root(p2)) {
+                let before = run.has_violation();
+                judge_state(&**oracle, run, &s1);
+                judge_state(&**oracle, run, &s2);
+                // ... and the same MOVE applied to the first and then to the second (a memo keyed by a narrowed
+                // parent hash plus the move)
+                let m2 = p2.legal_moves();
+                for m in p1.legal_moves().into_iter().filter(|m| m2.contains(m)).take(4) {
+                    if let Some(n1) = step(&**oracle, run, &s1, &Act::Mv(m), true) {
+                        judge_state(&**oracle, run, &n1);
+                    }
+                    if let Some(n2) = step(&**oracle, run, &s2, &Act::Mv(m), true) {
+                        judge_state(&**oracle, run, &n2);
+                    }
+                }
+                if !before && run.has_violation() {
+                    eprintln!("[{}] note: {} and {} were judged one right after the other on one thread; their hashes agree in their {kind}", run.id, p1.fen(), p2.fen());
+                }
+            }
+        });
+        run.note("call_order_pairs", json!({"pairs": pairs.len(), "what": "ordered pairs of different positions (3-man sets and the two-pawn en-passant family; for 40-bit agreements also K+Q v K+R, found on predicted keys and confirmed on the real hashes) whose library hashes agree in the low 32 / high 32 / low 16 / low 24 / xor-folded 32 / high 32 + low 8 / high 16 + low 16 bits, judged one right after the other on one thread, then up to four moves legal in both applied to the first and at once to the second: a memo inside the library keyed by a narrowed hash (and the move) answers for the wrong position"}));
+    }
 }
